@@ -53,10 +53,14 @@ var lvls = []log.Level{log.TraceLevel, log.DebugLevel, log.InfoLevel, log.WarnLe
 
 // valid configurations configure every handle name of the pool (whether requested yet or not)
 func validCfg(kind string) map[string]string {
-	m := map[string]string{"enableCaller": "false", "fastCaller": "false", "bufferCap": "10KB", "appender.rtag.type": "Rec"}
+	// A and B differ in their global properties too: a second Refresh that is rejected must not
+	// leak its property values into the live configuration
+	m := map[string]string{"enableCaller": "true", "fastCaller": "false", "bufferCap": "10KB", "appender.rtag.type": "Rec"}
 	typ := "Logger"
 	if kind == "B" {
 		typ = "AsyncLogger"
+		m["enableCaller"] = "false"
+		m["bufferCap"] = "1KB"
 	}
 	set := func(name, tags, level, rec string) {
 		m["appender."+rec+".type"] = "Rec"
@@ -266,6 +270,13 @@ func runSeq(ops []op, w *world) (msg string, hang bool) {
 				}
 				if console.Len() != conBefore {
 					return fail("%s under a live configuration also wrote to the console stream", o), false
+				}
+				if o.K == "LogTag" {
+					it := r.Items()[r.Len()-1]
+					wantCaller := w.state == "liveA"
+					if (it.File != "") != wantCaller {
+						return fail("%s: the live configuration has enableCaller=%v but the record carries file %q (a rejected Refresh or a failed one must not change the live configuration's properties)", o, wantCaller, it.File), false
+					}
 				}
 			}
 		case "RegisterTagNew", "RegisterTagExisting":
